@@ -4,7 +4,8 @@
    On a linear record Record.connect_locations of single-part locations is the hull
    (C04_connect_line) and Record.extend_location the clipped interval (C04 linear extend), so a
    core is carried as (start, end). *)
-From ASV Require Export Base.
+From ASV Require Export Base Loc.
+From ASV.C01 Require Model.
 
 Record itv := mkItv { s : Z; e : Z }.
 
@@ -43,6 +44,458 @@ Definition protoclusters (N c nb : Z) (anchors : list itv) : list (Z * Z * Z * Z
 Definition dItv : dec itv := fun l => match dPair dZ dZ l with Some ((a, b), r) => Some (mkItv a b, r) | None => None end.
 Definition dRule : dec (Z * Z * list itv) := dPair (dPair dZ dZ) (dList dItv).
 
+
+(* ====================================================================================
+   The full pipeline on linear AND circular records (function ids 2..): apply_cluster_rules,
+   find_protoclusters, _extend_area_location, apply_extenders, remove_redundant_protoclusters,
+   merge_over_origin of cluster_prediction.py, Record.get_cds_features_within_location,
+   Feature.__lt__, the location checks of the Feature / CDSCollection / Protocluster constructors.
+   Locations are Common/Loc.v locations; rule conditions are evaluated by the C01 model.
+   ==================================================================================== *)
+
+
+Definition gene := (Z * loc)%type.          (* id, location; lists of genes are in record order *)
+Definition wrap_of (N : Z) (circular : bool) : option Z := if circular then Some N else None.
+
+(* Feature.__lt__: get_comparator = (start, len), the start of an origin-crossing location being
+   min(head starts) - max(head ends) of the part before the origin *)
+Definition fkey (l : loc) : res (Z * Z) :=
+  if bridges l then
+    do lu <- split_bridging l;
+    let '(_, upper) := lu in Ok (lmin (map ps upper) - lmax (map pe upper), llen l)
+  else Ok (lstart l, llen l).
+Definition pair_lt (a b : Z * Z) : bool :=
+  (fst a <? fst b) || ((fst a =? fst b) && (snd a <? snd b)).
+(* gene locations are checked up front (every key exists); computed areas always split validly *)
+Definition klt (a b : loc) : bool :=
+  match fkey a, fkey b with Ok ka, Ok kb => pair_lt ka kb | _, _ => false end.
+
+(* bisect.bisect_left(a, x): [lt e] stands for a[mid] < x; the exact binary search *)
+Fixpoint bisect_go {A} (lt : A -> bool) (l : list A) (fuel : nat) (lo hi : nat) : nat :=
+  match fuel with
+  | O => lo
+  | S f =>
+    if Nat.ltb lo hi then
+      let mid := Nat.div2 (lo + hi) in
+      match nth_error l mid with
+      | Some x => if lt x then bisect_go lt l f (S mid) hi else bisect_go lt l f lo mid
+      | None => lo
+      end
+    else lo
+  end.
+Definition bisect_left {A} (lt : A -> bool) (l : list A) : nat :=
+  bisect_go lt l (S (length l)) 0 (length l).
+
+(* ---------- Record.get_cds_features_within_location ---------- *)
+(* while i > 0 and p(i - 1): i -= 1 *)
+Fixpoint dec_while (p : nat -> bool) (i : nat) : nat :=
+  match i with O => O | S j => if p j then dec_while p j else i end.
+Definition nth_loc (gs : list gene) (i : nat) : loc :=
+  match nth_error gs i with Some g => snd g | None => [] end.
+Definition find_start (gs : list gene) (q : loc) (incl : bool) : nat :=
+  let i := bisect_left (fun g : gene => klt (snd g) q) gs in
+  let i := dec_while (fun j => lstart (nth_loc gs j) =? lstart q) i in
+  if incl then dec_while (fun j => overlap (nth_loc gs j) q) i else i.
+Fixpoint scan (q : loc) (wo : bool) (l : list gene) : list gene :=
+  match l with
+  | [] => []
+  | f :: rest =>
+    if contains q (snd f) then f :: scan q wo rest
+    else if wo && overlap (snd f) q then f :: scan q wo rest
+    else match rest with
+         | nx :: _ => if contains (snd f) (snd nx) then scan q wo rest else []
+         | [] => []
+         end
+  end.
+Definition within_simple (gs : list gene) (p : part) (wo : bool) : list gene :=
+  let p := if ps p <? 0 then mkPart 0 (Z.max 1 (pe p)) S_None else p in
+  scan [p] wo (skipn (find_start gs [p] wo) gs).
+Definition gmem (g : gene) (l : list gene) : bool := existsb (fun h : gene => fst h =? fst g) l.
+Definition within (gs : list gene) (q : loc) (wo : bool) : list gene :=
+  match q with
+  | [p] => within_simple gs p wo
+  | _ =>
+    let feats := fold_left (fun acc p => acc ++ filter (fun f => negb (gmem f acc)) (within_simple gs p true)) q [] in
+    if wo then feats else filter (fun f : gene => contains q (snd f)) feats
+  end.
+
+(* ---------- constructor checks ---------- *)
+Fixpoint nodupZ (l : list Z) : bool :=
+  match l with [] => true | x :: r => negb (existsb (Z.eqb x) r) && nodupZ r end.
+(* Feature.__init__ : overlapping exons (shared end), negative start *)
+Definition mk_feature (l : loc) : res loc :=
+  if is_compound l && negb (nodupZ (map pe l)) then Err E_Value else
+  if lend l <? lstart l then Err E_Assert else
+  if lstart l <? 0 then Err E_Value else Ok l.
+(* Protocluster.__init__ -> CDSCollection.__init__ -> Feature.__init__ *)
+Definition mk_proto (core sur : loc) : res unit :=
+  if bridges core && negb (bridges sur) then Err E_Value else
+  if zlen sur <? zlen core then Err E_Assert else
+  do _ <- (if is_compound sur then
+             match sur with
+             | [_; p1] => if ps p1 =? 0 then Ok tt else Err E_Value
+             | _ => Err E_Assert
+             end
+           else Ok tt);
+  if negb (all_same_strand sur) then Err E_Assert else
+  do _ <- mk_feature sur;
+  if is_compound sur && negb (lstrand sur =? 1) then Err E_Value else Ok tt.
+
+(* ---------- _extend_area_location ---------- *)
+Definition extend_area (l : loc) (distance N : Z) (circular force : bool) : res loc :=
+  if (lstrand l =? S_None) && negb (zlen l =? 1) then Err E_Assert else
+  let max_parts := if circular then 2 else 1 in
+  do distance <- (if circular then
+                    if is_compound l && negb (bridges l) then Err E_Value
+                    else Ok (Z.min distance ((N - llen l) / 2 + 1))
+                  else Ok distance);
+  if max_parts <? zlen l then Err E_Value else
+  let fwd := if lstrand l =? 1 then l else make_forwards l in
+  do ext <- extend_location fwd distance N circular;
+  do result <- connect_locations [ext] (wrap_of N circular);
+  do result <- (if bridges l && (llen result =? N) && negb (bridges result) && force then
+                  match l, last_opt l with
+                  | p0 :: _, Some pn =>
+                    let mid := (ps p0 - pe pn) / 2 + pe pn in
+                    do a <- mkFL mid N (lstrand result);
+                    do b <- mkFL 0 (mid - 1) (lstrand result);
+                    Ok [a; b]
+                  | _, _ => Err E_Index
+                  end
+                else Ok result);
+  if max_parts <? zlen result then Err E_Value else Ok result.
+
+(* ---------- rules, hits ---------- *)
+Record rule := mkRule { r_cut : Z; r_nb : Z; r_cond : C01.Model.cond; r_ext : option C01.Model.cond; r_sup : list Z }.
+Definition hits := list (Z * list (Z * Z)).          (* results_by_id, dict order *)
+Definition proto := (Z * loc * loc)%type.            (* rule index, core, surrounding location *)
+Definition p_rule (p : proto) : Z := fst (fst p).
+Definition p_core (p : proto) : loc := snd (fst p).
+Definition p_sur (p : proto) : loc := snd p.
+
+Fixpoint lookup {A} (k : Z) (l : list (Z * A)) : option A :=
+  match l with [] => None | (k', v) :: r => if k =? k' then Some v else lookup k r end.
+Definition nth_rule (rules : list rule) (i : Z) : rule :=
+  nth (Z.to_nat i) rules (mkRule 0 0 (C01.Model.Single false 0) None []).
+
+Section Pipeline.
+Variable N : Z.
+Variable circular : bool.
+Variable gs : list gene.         (* record.get_cds_features() *)
+Variable hs : hits.
+Variable rules : list rule.
+Let w := wrap_of N circular.
+
+(* ---------- apply_cluster_rules ---------- *)
+(* what is cached per cutoff: nearby features and circular_origin (nearby results are a
+   function of the nearby features) *)
+Definition info := (list gene * Z)%type.
+Definition gene_info (g : gene) (cutoff : Z) : res info :=
+  do l <- connect_locations [snd g] w;
+  if 2 <? zlen l then Err E_Assert else
+  do l <- extend_area l cutoff N circular false;
+  Ok (within gs l true, if is_compound l && circular then N else 0).
+
+Definition rule_ctx (r : rule) (i : info) : C01.Model.ctx :=
+  C01.Model.mkCtx (r_cut r) (Some (snd i)) (fst i)
+    (flat_map (fun f : gene => match lookup (fst f) hs with Some h => [(fst f, h)] | None => [] end) (fst i)).
+
+(* cluster_type_hits: rule index -> gene ids, both in insertion order *)
+Definition anchors := list (Z * list Z).
+Fixpoint add_anchor (ri g : Z) (a : anchors) : anchors :=
+  match a with
+  | [] => [(ri, [g])]
+  | (k, l) :: r => if k =? ri then (k, if existsb (Z.eqb g) l then l else l ++ [g]) :: r
+                   else (k, l) :: add_anchor ri g r
+  end.
+
+Definition eval_rule (g : gene) (ri : Z) (r : rule) (i : info) (acc : anchors) : res anchors :=
+  if negb (gmem g (fst i)) then Err E_Key else
+  let m := C01.Model.detect (rule_ctx r i) (r_cond r) (fst g) in
+  if C01.Model.met m && nonempty (C01.Model.matches m)
+  then Ok (fold_left (fun a o => add_anchor ri o a) (map fst (C01.Model.ancs m)) (add_anchor ri (fst g) acc))
+  else Ok acc.
+
+(* [cached = true]: the code as it is (info_by_range keyed by cutoff, the flag stored with it);
+   [cached = false]: every rule evaluated on freshly computed information (the specification) *)
+Fixpoint rules_loop (cached : bool) (g : gene) (cache : list (Z * info)) (ri : Z) (rs : list rule) (acc : anchors)
+  : res anchors :=
+  match rs with
+  | [] => Ok acc
+  | r :: rest =>
+    match (if cached then lookup (r_cut r) cache else None) with
+    | Some i => do acc <- eval_rule g ri r i acc; rules_loop cached g cache (ri + 1) rest acc
+    | None => do i <- gene_info g (r_cut r);
+              do acc <- eval_rule g ri r i acc;
+              rules_loop cached g ((r_cut r, i) :: cache) (ri + 1) rest acc
+    end
+  end.
+
+Definition gene_by_id (i : Z) : option gene := find (fun g : gene => fst g =? i) gs.
+
+Definition apply_cluster_rules (cached : bool) : res anchors :=
+  let with_hits := flat_map (fun h : Z * list (Z * Z) => match gene_by_id (fst h) with Some g => [g] | None => [] end) hs in
+  let ordered := sort_by (fun a b : gene => lstart (snd a) <? lstart (snd b)) with_hits in
+  fold_left (fun acc g => do a <- acc; rules_loop cached g [] 0 rules a) ordered (Ok []).
+
+(* ---------- find_protoclusters: the chain sweep of one rule ---------- *)
+Definition sweep_step (cutoff : Z) (acc : res (list loc)) (g : loc) : res (list loc) :=
+  do cores <- acc;                                  (* newest first *)
+  match cores with
+  | [] => do c <- connect_locations [g] w; do c <- mk_feature c; Ok [c]
+  | prev :: rest =>
+    do d <- extend_area prev cutoff N circular false;
+    do d <- mk_feature d;
+    if llen d <? llen prev then Err E_Assert else
+    if overlap g d then do c <- connect_locations [prev; g] w; Ok (c :: rest)
+    else do c <- connect_locations [g] w; do c <- mk_feature c; Ok (c :: cores)
+  end.
+
+Definition rule_cores (r : rule) (ids : list Z) : res (list loc) :=
+  let feats := sort_by (fun a b : gene => klt (snd a) (snd b)) (filter (fun g : gene => existsb (Z.eqb (fst g)) ids) gs) in
+  let cross := filter (fun g : gene => bridges (snd g)) feats in
+  let plain := sort_by (fun a b : gene => klt (snd a) (snd b)) (filter (fun g : gene => negb (bridges (snd g))) feats) in
+  do cross_cores <- mapM (fun g : gene => do c <- connect_locations (map (fun p => [p]) (snd g)) w; mk_feature c) cross;
+  do cores_rev <- fold_left (sweep_step (r_cut r)) (map snd plain) (Ok (rev cross_cores));
+  let cores := rev cores_rev in
+  match cores, cores_rev with
+  | [], _ => Err E_Assert
+  | first :: _, last :: before_rev =>
+    if circular && (1 <? zlen cores) && (lstart last <? lstart first) then
+      if dist first last w <? r_cut r then
+        do c <- connect_locations [last; first] w;
+        Ok (c :: tl (rev before_rev))
+      else Ok cores
+    else Ok cores
+  | _, _ => Ok cores
+  end.
+
+Definition initial_protos (a : anchors) : res (list proto) :=
+  do per <- mapM (fun e : Z * list Z =>
+                    let r := nth_rule rules (fst e) in
+                    do cores <- rule_cores r (snd e);
+                    mapM (fun core => do sur <- extend_area core (r_nb r) N circular true;
+                                      do _ <- mk_proto core sur; Ok (fst e, core, sur)) cores) a;
+  Ok (concat per).
+
+(* ---------- apply_extenders ---------- *)
+Definition can_extend (r : rule) (g : gene) : bool :=
+  match r_ext r with
+  | None => false
+  | Some c =>
+    let h := match lookup (fst g) hs with Some h => h | None => [] end in
+    C01.Model.met (C01.Model.detect (C01.Model.mkCtx (r_cut r) None [g] [(fst g, h)]) c (fst g))
+  end.
+
+(* mark_extendable: the genes it yields; [core0] is the core as it was when the generator was made *)
+Fixpoint mark (r : rule) (core0 prev : loc) (walk : list gene) : list gene :=
+  match walk with
+  | [] => []
+  | g :: rest =>
+    if contains core0 (snd g) then mark r core0 prev rest
+    else if r_cut r <? dist (snd g) prev w then []
+    else if can_extend r g then g :: mark r core0 (snd g) rest
+    else mark r core0 prev rest
+  end.
+Definition grow (core : loc) (accepted : list gene) : res loc :=
+  fold_left (fun acc g => do c <- acc; connect_locations [snd g; c] w) accepted (Ok core).
+
+Definition extend_proto (p : proto) : res proto :=
+  let r := nth_rule rules (p_rule p) in
+  let core0 := p_core p in
+  let index := bisect_left (fun g : gene => klt (snd g) core0) gs in
+  match within gs core0 false, last_opt (within gs core0 false) with
+  | first :: _, Some last =>
+    let back := rev (firstn index gs) ++ (if circular then rev (skipn (S index) gs) else []) in
+    do core1 <- grow core0 (mark r core0 (snd first) back);
+    let fwd := skipn index gs ++ (if circular then firstn index gs else []) in
+    do core2 <- grow core1 (mark r core1 (snd last) fwd);
+    if negb (contains core2 core0) then Err E_Assert else
+    do sur <- extend_area core2 (r_nb r) N circular true;
+    do _ <- mk_proto core2 sur;
+    Ok (p_rule p, core2, sur)
+  | _, _ => Err E_Index
+  end.
+
+(* ---------- remove_redundant_protoclusters ---------- *)
+Definition first_last (core : loc) : res (loc * loc) :=
+  match within gs core false, last_opt (within gs core false) with
+  | f :: _, Some l => Ok (snd f, snd l)
+  | _, _ => Err E_Index
+  end.
+Fixpoint red_inner (core first last : loc) (others : list loc) (red : bool) : res bool :=
+  match others with
+  | [] => Ok red
+  | o :: rest =>
+    if contains o core then red_inner core first last rest true else
+    do fl <- first_last o;
+    if klt (snd fl) first then red_inner core first last rest red
+    else if klt last (fst fl) then red_inner core first last rest red
+    else Ok true
+  end.
+Fixpoint red_outer (all : list proto) (core first last : loc) (sups : list Z) : res bool :=
+  match sups with
+  | [] => Ok false
+  | s :: rest =>
+    do r <- red_inner core first last (map p_core (filter (fun q => p_rule q =? s) all)) false;
+    if r then Ok true else red_outer all core first last rest
+  end.
+Definition is_redundant (all : list proto) (p : proto) : res bool :=
+  do fl <- first_last (p_core p);
+  red_outer all (p_core p) (fst fl) (snd fl) (r_sup (nth_rule rules (p_rule p))).
+Definition remove_redundant (all : list proto) : res (list proto) :=
+  do flags <- mapM (is_redundant all) all;
+  Ok (map fst (filter (fun pf : proto * bool => negb (snd pf)) (combine all flags))).
+
+(* ---------- merge_over_origin ---------- *)
+Definition merge_pair (a b : proto) : res proto :=
+  let r := nth_rule rules (p_rule a) in
+  do core <- connect_locations [p_core a; p_core b] w;
+  do sur <- extend_location core (r_nb r) N circular;
+  do sur <- (if (llen sur =? N) && negb (bridges sur) && bridges core then
+               match core with
+               | p0 :: p1 :: _ =>
+                 let halfway := (ps p0 - pe p1) / 2 in
+                 do x <- mkFL (ps p0 - halfway) N 1;
+                 do y <- mkFL 0 (pe p1 + halfway - 1) 1;
+                 Ok [x; y]
+               | _ => Err E_Index
+               end
+             else Ok sur);
+  do _ <- mk_proto core sur;
+  Ok (p_rule a, core, sur).
+
+(* the loop over one product's (cluster, cutoff-extended core) pairs; state: finished pairs
+   (newest first), the last of them being the "previous" one *)
+Definition merge_step (acc : res (list (proto * loc))) (cl : proto * loc) : res (list (proto * loc)) :=
+  do done <- acc;
+  match done with
+  | [] => Ok [cl]
+  | (prev, prev_loc) :: rest =>
+    if overlap (p_core (fst cl)) prev_loc then
+      do m <- merge_pair prev (fst cl);
+      do ext <- extend_location (p_core m) (r_cut (nth_rule rules (p_rule m))) N circular;
+      Ok ((m, ext) :: rest)
+    else Ok (cl :: done)
+  end.
+(* [key]: the sort key of a (cluster, extended core) pair *)
+Definition merge_group (key : proto * loc -> Z) (group : list (proto * loc)) : res (list proto) :=
+  match group with
+  | [] | [_] => Ok (map fst group)
+  | _ =>
+    let sorted := sort_by (fun a b => key a <? key b) group in
+    do done <- fold_left merge_step sorted (Ok []);
+    Ok (map fst (rev done))
+  end.
+Fixpoint product_order (l : list proto) (seen : list Z) : list Z :=
+  match l with
+  | [] => rev seen
+  | p :: r => if existsb (Z.eqb (p_rule p)) seen then product_order r seen else product_order r (p_rule p :: seen)
+  end.
+Definition merge_over_origin_protos (key : proto * loc -> Z) (clusters : list proto) : res (list proto) :=
+  do pairs <- mapM (fun p => do ext <- extend_location (p_core p) (r_cut (nth_rule rules (p_rule p))) N circular;
+                             Ok (p, ext)) clusters;
+  do groups <- mapM (fun ri => merge_group key (filter (fun pl : proto * loc => p_rule (fst pl) =? ri) pairs))
+                    (product_order clusters []);
+  Ok (concat groups).
+Definition key_ext_start (pl : proto * loc) : Z := lstart (snd pl).
+
+(* ---------- detect_protoclusters_and_signatures (the protoclusters) ---------- *)
+Definition find_protoclusters (a : anchors) : res (list proto) :=
+  do cl <- initial_protos a;
+  do cl <- mapM extend_proto cl;
+  do cl <- remove_redundant cl;
+  merge_over_origin_protos key_ext_start cl.
+
+Definition pipeline (cached : bool) : res (list proto) :=
+  match gs with
+  | [] => Ok []
+  | _ =>
+    do _ <- mapM (fun g : gene => fkey (snd g)) gs;
+    match hs with
+    | [] => Ok []
+    | _ => do a <- apply_cluster_rules cached; find_protoclusters a
+    end
+  end.
+(* the stage at which the pipeline raises (0 = it does not): 1 apply_cluster_rules, 2 the chain sweep and the
+   first protoclusters, 3 apply_extenders, 4 remove_redundant_protoclusters, 5 merge_over_origin,
+   6 merge_over_origin when some core entering it is not forward-stranded *)
+Definition failing_stage : Z :=
+  match gs, hs with
+  | [], _ | _, [] => 0
+  | _, _ =>
+    match apply_cluster_rules true with
+    | Err _ => 1
+    | Ok a =>
+      match initial_protos a with
+      | Err _ => 2
+      | Ok c1 =>
+        match mapM extend_proto c1 with
+        | Err _ => 3
+        | Ok c2 =>
+          match remove_redundant c2 with
+          | Err _ => 4
+          | Ok c3 => match merge_over_origin_protos key_ext_start c3 with
+                     | Err _ => if forallb (fun q => lstrand (p_core q) =? 1) c3 then 5 else 6
+                     | Ok _ => 0 end
+          end
+        end
+      end
+    end
+  end.
+End Pipeline.
+
+(* ---------- encoding ---------- *)
+Definition dGene : dec gene := dPair dZ dLoc.
+Definition dHits : dec hits := dList (dPair dZ (dList (dPair dZ dZ))).
+Definition dRuleF (fuel : nat) : dec rule := fun l =>
+  match l with
+  | c :: nb :: r =>
+    match C01.Model.dCond fuel r with
+    | Some (cond, r1) =>
+      match dOpt (C01.Model.dCond fuel) r1 with
+      | Some (ext, r2) =>
+        match dList dZ r2 with
+        | Some (sup, r3) => Some (mkRule c nb cond ext sup, r3)
+        | None => None
+        end
+      | None => None
+      end
+    | None => None
+    end
+  | _ => None
+  end.
+
+Fixpoint lex_lt (a b : list Z) : bool :=
+  match a, b with
+  | [], _ :: _ => true
+  | x :: xs, y :: ys => (x <? y) || ((x =? y) && lex_lt xs ys)
+  | _, [] => false
+  end.
+Definition eProto (p : proto) : list Z := p_rule p :: eLoc (p_core p) ++ eLoc (p_sur p).
+(* canonical output: the protoclusters as a sorted list of encodings *)
+Definition eProtos (r : res (list proto)) : list Z :=
+  match r with
+  | Ok l => 0 :: eList (fun x => x) (sort_by lex_lt (map eProto l))
+  | Err k => [1; k]
+  end.
+Definition eAnchors (r : res anchors) : list Z :=
+  match r with
+  | Ok a => 0 :: eList (fun e : Z * list Z => fst e :: eList (fun x => [x]) (C01.Model.sof (snd e)))
+                       (sort_by (fun x y : Z * list Z => fst x <? fst y) a)
+  | Err k => [1; k]
+  end.
+
+Definition dInput (l : list Z) : option (Z * bool * list gene * hits * list rule) :=
+  match dPair (dPair (dPair dZ dBool) (dList dGene)) dHits l with
+  | Some ((N, circ, gs, hs), r) =>
+    match dList (dRuleF (length r)) r with
+    | Some (rules, []) => Some (N, circ, gs, hs, rules)
+    | _ => None
+    end
+  | None => None
+  end.
+
 Definition run_C03 (fn : Z) (l : list Z) : list Z :=
   match fn with
   | 1 => match dPair dZ (dList dRule) l with
@@ -51,5 +504,20 @@ Definition run_C03 (fn : Z) (l : list Z) : list Z :=
                     eList (fun p : Z * Z * Z * Z => let '(a, b, x, y) := p in [a; b; x; y]) (protoclusters N c nb anchors))
                  rules
          | _ => bad_input end
+  (* 2: the full pipeline as the code is; 3: the anchoring genes per rule (apply_cluster_rules);
+     4: the pipeline with every rule evaluated on freshly computed neighbourhood information
+        (specification of the per-cutoff cache) *)
+  | 2 => match dInput l with
+         | Some (N, circ, gs, hs, rules) => eProtos (pipeline N circ gs hs rules true)
+         | None => bad_input end
+  | 3 => match dInput l with
+         | Some (N, circ, gs, hs, rules) => eAnchors (apply_cluster_rules N circ gs hs rules true)
+         | None => bad_input end
+  | 4 => match dInput l with
+         | Some (N, circ, gs, hs, rules) => eProtos (pipeline N circ gs hs rules false)
+         | None => bad_input end
+  | 5 => match dInput l with
+         | Some (N, circ, gs, hs, rules) => [failing_stage N circ gs hs rules]
+         | None => bad_input end
   | _ => bad_input
   end.
